@@ -9,6 +9,7 @@ extern "C" int __sanitizer_install_malloc_and_free_hooks(void (*malloc_hook)(con
 namespace sim {
 
 RunState g_run;
+extern int g_next_image;
 std::map<std::string, u64> g_probe;
 std::map<std::string, u64> g_maxstat;
 volatile u64 g_steps = 0;
@@ -33,7 +34,7 @@ void (*g_fatal_hook)(const char *cls, const char *detail) = 0;
 NOTSAN void recompute_horizon() { g_next_event = g_deadline < g_sched_at ? g_deadline : g_sched_at; }
 
 void run_reset(bool tracing) {
-    g_run = RunState(); g_run.tracing = tracing;
+    g_run = RunState(); g_run.tracing = tracing; g_next_image = 1;
     g_api_index = 0; g_inlib = 0; g_incallback = 0; g_track = 0; g_deadline = ~0ull; g_sched_at = ~0ull; recompute_horizon();
 }
 
@@ -191,7 +192,7 @@ struct SimFILE { u64 magic; FileImage *img; size_t pos; bool open; };
 static const u64 SIMFILE_MAGIC = 0x53494D46494C4521ull;
 static std::map<int, FileImage *> g_images;
 static std::set<SimFILE *> g_simfiles;
-static int g_next_image = 1;
+int g_next_image = 1;      // reset per run: ids appear in the event log
 
 std::string file_register(FileImage *img) { img->id = g_next_image++; g_images[img->id] = img; return "sim:" + std::to_string(img->id); }
 void file_unregister(FileImage *img) {
